@@ -8,7 +8,9 @@ Model of the three public entry points (core Lean only):
   * `pyyeti.rainflow.c_rain.rainflow(peaks, getoffsets=False)`
       `"O|p"` argument parsing (an absent second argument is 0 **on every call**: the C variable is
       an automatic one), `PyArray_FROM_OTF(.., NPY_DOUBLE, NPY_ARRAY_IN_ARRAY)` (a positional float64
-      copy of whatever the caller handed over), the same `ndim`/`L` test and `ValueError`;
+      copy of whatever the caller handed over — refused with `TypeError` when the array's dtype
+      does not cast *safely* to float64: longdouble, complex, object; py_rain has no such test),
+      the same `ndim`/`L` test and `ValueError`;
   * `pyyeti.cyclecount.rainflow(peaks, getoffsets=False, use_pandas=True)`
       which implementation `rain` is (`c_rain` if it imports, else `py_rain`), and the DataFrame
       packaging (columns amp/mean/count and start/stop).
@@ -60,6 +62,7 @@ def pyEntry (peaks : Nd α) (getoffsets : Option Bool) : Except PyErr (Out α) :
 
 /-- `c_rain.rainflow(peaks, getoffsets)`; `none` = argument omitted -/
 def cEntry (peaks : Nd α) (getoffsets : Option Bool) : Except PyErr (Out α) :=
+  if !peaks.safe then .error .typeError else
   let L := if peaks.ndim = 1 then peaks.data.length else 0
   if L < 2 then .error .valueError else .ok (count peaks.data (getoffsets.getD false))
 
